@@ -117,6 +117,12 @@ Lemma builtin_isalpha c mm : (c < 256)%N ->
   do_builtin_m BIsalpha [VInt (Z.of_N c)] mm = Ok (VInt (b2z (CapDefs.c_isalpha c)), mm).
 Proof. intro H. cbn [do_builtin_m do_builtin]. rewrite (ct_arg_byte c H). cbn [bind]. rewrite (isalpha_byte c H). reflexivity. Qed.
 
+Lemma isspace_byte : forall c, (c < 256)%N -> ct_isspace (Z.of_N c) = CapDefs.c_isspace c.
+Proof. byte_fact. Qed.
+Lemma builtin_isspace c mm : (c < 256)%N ->
+  do_builtin_m BIsspace [VInt (Z.of_N c)] mm = Ok (VInt (b2z (CapDefs.c_isspace c)), mm).
+Proof. intro H. cbn [do_builtin_m do_builtin]. rewrite (ct_arg_byte c H). cbn [bind]. rewrite (isspace_byte c H). reflexivity. Qed.
+
 (* strchr(".$0123456789'/?+-,;%", c) != NULL, for every byte c: the terminator or a member of the address set *)
 Notation G_exloc := G_lit_2e2430313233343536373839272f3f2b2d2c3b25_20.
 Notation gb_exloc := gb_lit_2e2430313233343536373839272f3f2b2d2c3b25_20.
@@ -813,6 +819,70 @@ Section Scan.
   Proof.
     intros -> Hc. pose proof (rd_lt256 i c Hc). unfold C_is. cond_tac Hc.
   Qed.
+
+  (* ------------------------------------------------------------------ cutword (ec_set) *)
+  (* cutword calls isspace( *s) on a plain char: for a byte above 127 the argument is negative, which
+     <ctype.h> does not define (CLite: ECtype).  The theorem is therefore about ASCII strings. *)
+  Section Cut.
+  Hypothesis Hascii : Forall (fun c => (c < 128)%N) s.
+  Lemma rd_ascii i c : CapDefs.rd s i = CapDefs.Ok c -> (c < 128)%N.
+  Proof.
+    intro H. destruct (rd_nthb s i c H) as [Hi ->]. unfold nthb.
+    destruct (Nat.lt_ge_cases i (length s)) as [L|L].
+    - rewrite Forall_forall in Hascii. apply Hascii. apply nth_In. exact L.
+    - rewrite nth_overflow by exact L. reflexivity.
+  Qed.
+  Definition C_space : expr := EBuiltin BIsspace [ECast I32 (ELoad (Some I8) (ELocal 0))].
+  Lemma eval_C_space rest mm' w i c : mm' = MM w -> CapDefs.rd s i = CapDefs.Ok c ->
+    eval call C_space (mkst (VPtr bs (Z.of_nat i) :: rest) mm')
+    = Ok (VInt (b2z (CapDefs.c_isspace c)), mkst (VPtr bs (Z.of_nat i) :: rest) mm').
+  Proof.
+    intros -> Hc. pose proof (rd_lt256 i c Hc) as H1. pose proof (rd_ascii i c Hc) as H2.
+    unfold C_space. xs. rewrite (load_rd w i c _ Hc eq_refl). xs. rewrite (sx_cases c H1).
+    destruct (N.ltb_spec c 128); [|lia]. rewrite (builtin_isspace c _ H1). reflexivity.
+  Qed.
+  Definition cut_cond : expr := EAndAlso C_nz (ELNot C_space).
+  Lemma eval_cut_cond rest i w c : CapDefs.rd s i = CapDefs.Ok c ->
+    eval call cut_cond (ST i w rest) = Ok (VInt (b2z (negb ((c =? 0)%N || CapDefs.c_isspace c))), ST i w rest).
+  Proof.
+    intros Hc. pose proof (rd_lt256 i c Hc) as H1. unfold cut_cond, C_nz. xs. rewrite (load_rd w i c _ Hc eq_refl). xs. chars H256.
+    destruct (c =? 0)%N; xs; [reflexivity|].
+    rewrite (eval_C_space _ _ w i c eq_refl Hc). xs. destruct (CapDefs.c_isspace c); reflexivity.
+  Qed.
+  Lemma cut_copy_ok rest : forall fm i w i' w' fuel,
+    CapDefs.cut_copy fm s i w = CapDefs.Ok (i', w') -> CapDefs.wcap w = length blk -> (fm <= fuel)%nat ->
+    exec call fuel (SWhile cut_cond (SExpr E_copy1)) (ST i w rest) = ONormal (ST i' w' rest) /\ CapDefs.wcap w' = length blk.
+  Proof.
+    induction fm as [|fm IH]; intros i w i' w' fuel H Hcap Hf; [discriminate|].
+    destruct fuel as [|fuel]; [lia|]. cbn [CapDefs.cut_copy] in H.
+    destruct (CapDefs.rd s i) as [c| | |] eqn:Hc; cbn [CapDefs.bind] in H; try discriminate.
+    rewrite exec_while, (eval_cut_cond rest i w c Hc). xcbn. rewrite nb2z.
+    destruct ((c =? 0)%N || CapDefs.c_isspace c); cbn [negb].
+    { injection H as <- <-. split; [reflexivity|exact Hcap]. }
+    destruct (CapDefs.copy1 s i w) as [[i2 w2]| | |] eqn:H2; cbn [CapDefs.bind fst snd] in H; try discriminate.
+    destruct (eval_copy1 i w rest i2 w2 H2 Hcap) as [E2 C2]. rewrite exec_expr, E2.
+    apply (IH i2 w2 i' w' fuel H C2). lia.
+  Qed.
+  Lemma cutword_shape : fn_body cf_cutword =
+    SSeq (SWhile C_space S_inc) (SSeq (SWhile cut_cond (SExpr E_copy1)) (SSeq (SWhile C_space S_inc)
+    (SSeq (SExpr E_term) (SReturn (Some (ELocal 0)))))).
+  Proof. reflexivity. Qed.
+  Lemma cutword_body_ok fuel i w0 i' w' : CapDefs.cutword s i w0 = CapDefs.Ok (i', w') ->
+    CapDefs.wcap w0 = length blk -> (S (length s) <= fuel)%nat ->
+    exists st, exec call fuel (fn_body cf_cutword) (ST i w0 []) = OReturn (VPtr bs (Z.of_nat i')) st /\ memm st = MM w'.
+  Proof.
+    intros H Hcap Hf. rewrite cutword_shape. unfold CapDefs.cutword in H. cbv zeta in H.
+    destruct (CapDefs.skip_while _ _ s i) as [i1| | |] eqn:H1; cbn [CapDefs.bind] in H; try discriminate.
+    destruct (CapDefs.cut_copy _ s i1 w0) as [[i2 w2]| | |] eqn:H2; cbn [CapDefs.bind fst snd] in H; try discriminate.
+    destruct (CapDefs.skip_while _ _ s i2) as [i3| | |] eqn:H3; cbn [CapDefs.bind] in H; try discriminate.
+    destruct (CapDefs.wr w2 0%N) as [w3| | |] eqn:H4; cbn [CapDefs.bind] in H; try discriminate. injection H as <- <-.
+    rewrite exec_seq, (skip_loop_ok C_space CapDefs.c_isspace _ _ (fun i c => eval_C_space _ _ w0 i c eq_refl) _ i i1 fuel H1 Hf).
+    destruct (cut_copy_ok [] _ i1 w0 i2 w2 fuel H2 Hcap Hf) as [E2 C2].
+    rewrite exec_seq, E2.
+    rewrite exec_seq, (skip_loop_ok C_space CapDefs.c_isspace _ _ (fun i c => eval_C_space _ _ w2 i c eq_refl) _ i2 i3 fuel H3 Hf).
+    rewrite exec_seq, exec_expr, (eval_term _ _ _ w3 H4 C2), exec_return. xcbn. eexists; split; reflexivity.
+  Qed.
+  End Cut.
 End Scan.
 
 (* ------------------------------------------------------------------ the calls *)
@@ -900,6 +970,23 @@ Proof.
   rewrite (store_ok m bd blk 0 _ Hd) by lia. xcbn.
   change (upd m bd (upd blk (Z.to_nat 0) (VInt (wrap I8 (wrap I8 0))))) with m'.
   rewrite E, M. unfold MM, m'. rewrite upd_upd by exact Hbd. reflexivity.
+Qed.
+
+(* cutword(s, tok) of ec_set, for ASCII strings (see the note at Section Cut) *)
+Theorem tr_cutword m bs bd s blk i i' w d fuel :
+  str_at m bs s -> Forall (fun c => (c < 128)%N) s -> nth_error m bd = Some blk -> bs <> bd ->
+  CapDefs.cutword s i (CapDefs.newbuf (length blk)) = CapDefs.Ok (i', w) ->
+  (S (length s) <= fuel)%nat ->
+  callf cprog fuel (S d) F_cutword [VPtr bs (Z.of_nat i); VPtr bd 0] m
+  = Ok (VPtr bs (Z.of_nat i'), upd m bd (dblock w blk)).
+Proof.
+  intros Hs Hascii Hd Hne H Hf.
+  assert (H256 : bytes_lt256 s) by (eapply Forall_impl; [|exact Hascii]; cbv beta; intros; lia).
+  destruct (cutword_body_ok m bs bd s blk Hs H256 Hd Hne (callf cprog fuel d) Hascii fuel i _ i' w H (newbuf_cap _) Hf) as (st & E & M).
+  rewrite (MM_new m bd blk Hd) in E. rewrite callf_S. cbn [nth_error cprog F_cutword].
+  change (fn_nparams cf_cutword) with 2%nat. change (fn_nlocals cf_cutword) with 2%nat.
+  cbn [length Nat.eqb Nat.sub repeat app]. cbn [CapDefs.wlen CapDefs.newbuf fst length Z.of_nat] in E.
+  rewrite E, M. reflexivity.
 Qed.
 
 (* ------------------------------------------------------------------ composed with the capacity theorem *)
@@ -1016,6 +1103,34 @@ Proof.
   exists i', w. split; [exact E|]. rewrite <- Hcap in E.
   rewrite (tr_ex_plus m bs bd s blk i i' w d fuel Hs H256 Hd Hne E Hf).
   change (CapDefs.wlen (CapDefs.newbuf CapDefs.excap)) with 0%nat in L3.
+  repeat split; try assumption; lia.
+Qed.
+
+Lemma cutword_term s i w0 i' w : CapDefs.cutword s i w0 = CapDefs.Ok (i', w) -> exists r, fst w = 0%N :: r.
+Proof.
+  unfold CapDefs.cutword. cbv zeta. intro H. binv H. injection H as _ <-.
+  match goal with E : CapDefs.wr _ _ = _ |- _ => destruct (wr_inv _ _ _ E) as (F & _) end. eauto.
+Qed.
+(* cutword(arg, tok) in ec_set: tok[EXLEN], arg shorter than EXLEN and ASCII *)
+Theorem cutword_safe m bs bd s blk i d fuel :
+  str_at m bs s -> Forall (fun c => (c < 128)%N) s -> nth_error m bd = Some blk -> Z.of_nat (length blk) = EXLEN -> bs <> bd ->
+  Z.of_nat (length s) < EXLEN -> (i <= length s)%nat -> (S (length s) <= fuel)%nat ->
+  exists i' w, CapDefs.cutword s i (CapDefs.newbuf CapDefs.excap) = CapDefs.Ok (i', w) /\
+    callf cprog fuel (S d) F_cutword [VPtr bs (Z.of_nat i); VPtr bd 0] m
+    = Ok (VPtr bs (Z.of_nat i'), upd m bd (cstr_cells (CapDefs.wstr w) ++ skipn (S (length (CapDefs.wstr w))) blk)) /\
+    (i <= i')%nat /\ (i' <= length s)%nat /\ (length (CapDefs.wstr w) <= i' - i)%nat /\
+    (length (CapDefs.wstr w) < length blk)%nat.
+Proof.
+  intros Hs Hascii Hd Hlen Hne Hln Hi Hf. pose proof (len_excap blk Hlen) as Hcap.
+  pose proof CapProps.excap_EXLEN as HE.
+  destruct (CapProps.cutword_spec s i (CapDefs.newbuf CapDefs.excap) Hi) as (i' & w & E & L1 & L2 & L3 & _).
+  { change (CapDefs.wroom (CapDefs.newbuf CapDefs.excap)) with CapDefs.excap. lia. }
+  exists i', w. split; [exact E|]. rewrite <- Hcap in E.
+  rewrite (tr_cutword m bs bd s blk i i' w d fuel Hs Hascii Hd Hne E Hf).
+  rewrite (dblock_wstr w blk (cutword_term _ _ _ _ _ E)).
+  change (CapDefs.wlen (CapDefs.newbuf CapDefs.excap)) with 0%nat in L3.
+  pose proof (CapProps.wstr_length w) as WL. destruct (cutword_term _ _ _ _ _ E) as (r & F).
+  assert (CapDefs.wlen w = S (length r)) as WL2 by (unfold CapDefs.wlen; rewrite F; reflexivity).
   repeat split; try assumption; lia.
 Qed.
 
